@@ -78,6 +78,15 @@ def run_unit(unit_name, tier, seed):
     return out
 
 
+def fn_range(meta, qname, line):
+    """is generated line `line` inside function `qname`?"""
+    for q, l0, l1 in meta['functions']:
+        if q == qname or q.split('::')[-1] == qname.split('::')[-1]:
+            if l0 <= line <= l1:
+                return True
+    return False
+
+
 def helper_reach(meta, path, pid):
     """short names of the functions (in this generated unit) that a function carrying an obligation of `pid` can call, transitively.
     Textual call graph over the generated file (over-approximate by short name): used to decide which properties an UNTAGGED
@@ -189,6 +198,12 @@ def main(argv):
                 if ov and (pid in ov[1].get('props', []) or any(pid in tag_props(t or '') for t, _ in ov[1]['ensures'] if t)):
                     undecided.append('%s: resource limit in %s' % (un, fn))
                 continue
+            if mine and ov and ov[0] in meta.get('restructured', []) and d['kind'] != 'post' and '@exit' not in d['tags']:
+                # the function's loops were merged / duplicated: the loop-level clauses of the overlay were written for another
+                # decomposition, so only a failing POSTCONDITION (at an exit) is trusted as a violation here
+                undecided.append('%s: %s was restructured (its loops no longer match the overlay one-to-one); loop-level clause %s failed but is '
+                                 'not trusted on the new structure' % (un, fn, ','.join(mine)))
+                continue
             if mine:
                 for t in mine:
                     obligations.setdefault(t, dict(status='discharged', unit=un, backend='verus/z3', lines=[]))
@@ -196,7 +211,14 @@ def main(argv):
                     violations.append((t, un, d))
                 continue
             if d['tags']:
-                continue   # tagged for other properties only
+                # tagged for other properties only.  A failed postcondition does not affect the other postconditions of the function,
+                # but a failed loop clause / assertion is ASSUMED by everything after it: the function's obligations of this property
+                # were then proved relative to a false assumption -> not decided
+                if d['kind'] != 'post' and ov and (pid in ov[1].get('props', []) or any(t and pid in tag_props(t) for t, _ in ov[1]['ensures'])
+                                                   or any(pid in tag_props(t) for ln, ts in meta['tags'].items() for t in ts if fn_range(meta, ov[0], int(ln)))):
+                    undecided.append('%s: clause %s (of another property) failed inside %s; the %s obligations of that function were proved assuming it, '
+                                     'so they are not decided' % (un, ','.join(d['tags']), fn, pid))
+                continue
             # untagged failure
             if ov and pid in ov[1].get('props', []) and d['kind'] in ('overflow', 'bounds', 'div0', 'pre') and not d.get('user_pre'):
                 t = '%s.%s.%s.panic_free' % (pid, un, ov[0].replace('::', '.'))
@@ -324,6 +346,11 @@ def update_ledger(args):
     for pid in which:
         evp = os.path.join(EVID, pid + '.json')
         ev = json.load(open(evp))
+        und = [x for x in ev['coverage'].get('undecided', []) if not x.startswith('ledger obligations no longer generated')]
+        bad = [t for t, st in ev['coverage']['obligation_status'].items() if st not in ('discharged', 'known-finding')]
+        if und or bad:
+            print('ledger NOT updated for %s: its last run was not clean (%d undecided, %d not discharged) -- repair first' % (pid, len(und), len(bad)))
+            continue
         ledger[pid] = sorted(t for t, st in ev['coverage']['obligation_status'].items() if st == 'discharged')
     os.makedirs(os.path.dirname(LEDGER), exist_ok=True)
     json.dump(ledger, open(LEDGER, 'w'), indent=1, sort_keys=True)
